@@ -33,6 +33,9 @@ open NV.Gen.C12 in
 /-- backend blocks in the poller exactly when no occupied slot has CMD_IN_BUF (heart beat off) -/
 @[simp] theorem pollBlocks_spec (p : Bool) : pollBlocks p = !p := by cases p <;> rfl
 
+/-- network users are searched a slot from index 1 on (slot 0 is the console user's) -/
+theorem firstUserSlot_spec : NV.Gen.C12.firstUserSlot = 1 := rfl
+
 /-- the table really grows when it is full (otherwise `all_users[i]` would be written outside it) -/
 theorem growBy_pos : 0 < growBy := by decide
 
